@@ -20,6 +20,8 @@ func checkC02(r *Run) {
 		req("reads the unspent pool bucket by the hash", "ok(visor/dbutil.GetBucketValueNoCopy($1, visor/blockdb.UnspentPoolBkt, $2[:]))"))
 
 	ruleProcessTxnsConflicts(r, "C02-R2")
+	// one transaction may not name the same output twice (nor create the same output twice)
+	r.RequireOnSuccess("C02-R6", "coin.Transaction.verify", txnVerifyReqs()...)
 	ruleBlockVerificationChain(r, "C02-R2b")
 	ruleUnspentPoolOwnership(r, "C02-R5")
 	ruleProcessBlockProvenance(r, "C02-R5b")
@@ -30,14 +32,7 @@ const foldHoursIn = "fold[acc=0; util/mathutil.AddUint64(acc, φ(0|coin.UxOut.Co
 func checkC03(r *Run) {
 	r.Explain = "C03: (R1) VerifyTransactionHoursSpending succeeds only if output hours <= input hours accrued at the given time, the input sum built with the checked fold, and the only tolerated CoinHours error is the documented addition-overflow one (mapped to 0); (R2) the hard-constraint verifier calls it with the current head's time; (R3) admission to the unconfirmed pool requires OutputHours() and every input's CoinHours() to be computable; (R4) arithmetic of UxOut.CoinHours is overflow-checked (shared with C31)."
 	r.NotDec = "monotonicity of accrual as a numerical fact; the documented legacy exception (unchecked output-hours sum in block verification)"
-	r.RequireOnSuccess("C03-R1", "coin.VerifyTransactionHoursSpending",
-		req("output hours do not exceed input hours", "fold[acc=0; (acc + $2[i].Body.Hours)] <= "+foldHoursIn),
-		req("input hours accumulated with overflow check over every input", "forall(i < len($1)): ok(util/mathutil.AddUint64("+foldHoursIn+", φ(0|coin.UxOut.CoinHours($1[i], $0)#0)))"),
-		req("the only tolerated CoinHours error is the addition overflow", "forall(i < len($1)): coin.UxOut.CoinHours($1[i], $0)#1 != nil => coin.UxOut.CoinHours($1[i], $0)#1 == coin.ErrAddEarnedCoinHoursAdditionOverflow"))
-	r.ExhaustiveRejects("C03-R1", "coin.VerifyTransactionHoursSpending",
-		req("tolerated error class", "coin.UxOut.CoinHours($1[i], $0)#1 == coin.ErrAddEarnedCoinHoursAdditionOverflow"),
-		req("input sum overflow", "ok(util/mathutil.AddUint64(*"),
-		req("hours not created", "fold[acc=0; (acc + $2[i].Body.Hours)] <= *"))
+	ruleHoursSpending(r, "C03-R1")
 	r.RequireOnSuccess("C03-R2", "transaction.verifyTxnHardConstraints",
 		req("hours spending checked at the head time", "ok(coin.VerifyTransactionHoursSpending($1.Time, $2, coin.CreateUnspents($1, $0)))"))
 	r.RequireOnSuccess("C03-R2", "visor.Blockchain.VerifyBlockTxnConstraints",
@@ -51,11 +46,14 @@ func checkC03(r *Run) {
 	ruleCoinHoursArith(r, "C03-R4")
 	// every transaction of every accepted block: the chain from block execution down to the hours check
 	ruleBlockVerificationChain(r, "C03-R2")
+	// accrual and the input sum lean on the checked helpers reporting every wrap
+	ruleMathutilIdioms(r, "C03-R4")
 }
 
 func checkC04(r *Run) {
 	r.Explain = "C04: (R1) every path to chainStore.AddBlock passes the publisher-signature check, except through the exported Unsafe variant whose in-module callers are enumerated; (R2) the header that was signature-checked is the header stored: no store to a BlockHeader field between the check and AddBlock; (R3) verifyBlockHeader succeeds only with seq==head+1, time>head time, prevhash==head hash, bodyhash==hash(body); verifyUxHash; second genesis refused; these are the only rejections; (R4) no error of a db accessor is dropped inside a tx function (a swallowed error would commit a partial state)."
 	r.NotDec = "bolt's rollback itself (trusted); that HashHeader/Body.Hash compute the right bytes (C21)"
+	ruleSignedHashAcceptors(r, "C04-R7")
 	ruleNoStateBesideTx(r, "C04-R6")
 	// R1
 	r.RequireOnSuccess("C04-R1", "visor.Visor.executeSignedBlock",
@@ -128,6 +126,8 @@ func checkC06(r *Run) {
 	r.Explain = "C06: (R1) the unconfirmed bucket is written only by unconfirmedTxns.put/delete, whose callers are enumerated; (R2) user submissions pass user + soft + hard constraints before injection; (R3) InjectTransaction inserts only when verification returned nil or a soft error, and a known hash is updated not duplicated; (R4) after a block is executed its transactions are removed from the pool and history is updated before success; (R5) RemoveInvalid removes exactly hard-violating txns; Refresh writes every re-checked txn back with IsValid=1 iff the verifier returned nil."
 	r.NotDec = "flag/pool contents for a concrete interleaving"
 	ruleNoCrossedConfig(r, "C06-R0")
+	ruleHardBeforeSoft(r, "C06-R1")
+	ruleVerifyParamsSites(r, "C06-R1")
 	// R1
 	n := 0
 	for _, w := range r.P.BucketWrites() {
